@@ -91,7 +91,12 @@ class SymV(object):
             self._ctx.order.append(name)
             self._proxies[name] = 0
             return 0
-        v = concretize(self.int(name, 0, k - 1))
+        x = self.int(name, 0, k - 1)
+        pn = self.opts.get('pin_not')
+        if pn and name in pn:
+            for bad in pn[name]:
+                self._ctx.assume(x != bad)
+        v = concretize(x)
         self._proxies[name] = v
         return v
 
